@@ -23,6 +23,17 @@ def family(k, c):
     return ("class S {\n" + "".join(ms) + "}\n").encode()
 
 
+def family_classes(m):
+    """m classes (top level and nested), one method and one call each: the number of declarations grows with the file"""
+    out = []
+    for i in range(m):
+        if i % 3 == 2:
+            out.append("class C%d { void m%d() { h%d(); } class N%d { void n%d() { m%d(); } } }\n" % (i, i, i, i, i, i))
+        else:
+            out.append("class C%d { void m%d() { h%d(); } }\n" % (i, i, i))
+    return ("package demo;\n" + "".join(out)).encode()
+
+
 def run(run):
     C.build_driver()
     h, d = C.Harness(), C.Driver()
@@ -47,6 +58,9 @@ def run(run):
         for b in base[:3]:
             for cut in (1, len(b) // 3, len(b) // 2, len(b) - 1):
                 inputs.append(("truncated", b[:cut]))
+        # minimised past disagreement (model joined call-name identifiers with "." even after an empty MISSING identifier)
+        inputs += [("missing-identifier", b"class A { void f(){ x = .<T>z(a); y = .z(b).<U>w(); } }"),
+                   ("missing-identifier", bytes.fromhex("7c2d2b3bff223e7d637a7b2b227a7c3cc36161227b623c260a282c633d2e293d2f622728632d222f202e3c78ff2a2e2b26ff002e780a7a28a97d7bff616229292d27"))]
         inputs += [("empty", b""), ("nul", b"\x00" * 50), ("invalid-utf8", b"\xff\xfe class \xc3( { int x = \xe9 + ; }"),
                    ("deep-parens", b"class A { int f(){ return " + b"(" * 2000 + b"1" + b")" * 2000 + b"; } }"),
                    ("deep-blocks", b"class A { void f(){ " + b"{" * 1500 + b"}" * 1500 + b" } }"),
@@ -85,16 +99,17 @@ def run(run):
         run.sample(dict(label="mutated", source=inputs[len(base) + 1][1][:300].decode("utf-8", "replace")))
         # ---- scaling family: operation counts (exact relation) and growth
         sizes = [(6, 4), (18, 4), (54, 4)] if quick else [(10, 4), (30, 4), (90, 4), (270, 4)]
+        sizes += [(20, -1), (60, -1), (180, -1)] if quick else [(30, -1), (90, -1), (270, -1), (810, -1)]
         rows = []
         for k, c in sizes:
-            src = family(k, c)
+            src = family(k, c) if c >= 0 else family_classes(k)
             real = h.call(op="build", hex=src.hex(), file="S.java", nonodes=True, timeout=600)
             if real.get("outcome") != "ok":
                 run.violation("C09:scan-" + str(real.get("outcome")), "scaling family k=%d ends with %s" % (k, real.get("outcome")), dict(k=k, c=c))
                 continue
             full = S.real_build(h, src, "S.java")
             model = S.model_build(d, src, "S.java", full["tree"])
-            rows.append(dict(k=k, bytes=len(src), tree=real["treeSize"], nodes=real["n"], ops=real["ops"], model_ops=model.get("ops"), ms=real["ms"]))
+            rows.append(dict(k=k, c=c, family="methods-x-calls" if c >= 0 else "many-classes", bytes=len(src), tree=real["treeSize"], nodes=real["n"], ops=real["ops"], model_ops=model.get("ops"), ms=real["ms"]))
             run.count(("family", k, c))
             if model.get("ops") != real["ops"]:
                 mism.append(dict(label="family", k=k, hook_ops=real["ops"], model_ops=model.get("ops")))
@@ -103,6 +118,8 @@ def run(run):
                 run.violation("C09:superquadratic-work", "the declaration x invocation pass makes %d iterations on a tree of %d nodes (more than size^2)" % (real["ops"], real["treeSize"]),
                               dict(k=k, c=c, ops=real["ops"], tree=real["treeSize"]))
         for a, b in zip(rows, rows[1:]):
+            if (a["c"] < 0) != (b["c"] < 0):
+                continue
             ratio = b["ops"] / max(1, a["ops"])
             size_ratio = b["tree"] / a["tree"]
             if ratio > 1.3 * size_ratio ** 2:
